@@ -12,6 +12,8 @@ GROUPS.append(G("tu_ReadRecordHeader", TU, "h_ReadRecordHeader", enforce=[], lin
 GROUPS.append(G("tu_WriteRecordHeader", TU, "h_WriteRecordHeader", enforce=[], link=LINK, unwind=12, timeout=300, functions=["WriteRecordHeader", "Granularity"]))
 GROUPS.append(G("tu_CMD_FilterList", TU, "h_CMD_FilterList", enforce=[], link=LINK, loops=True, unwind=258, unwindset=["@h_CMD_FilterList:CMD_FilterList:last:2", "@CMD_FilterList:CMD_FilterList:last:2"], timeout=600, dfcc=False, drop_unused=True, functions=["CMD_FilterList"], object_bits=12, defs=["-DVERIF_FILTERLIST"], flags=["--slice-formula"], split=6,
                 bounded="one CPU id per call (the comma loop is unwound once); the id's value is an oracle for the number parser"))
+GROUPS.append(G("tu_ReadRelocInfo", TU, "h_ReadRelocInfo", enforce=[], link=LINK, unwind=8, timeout=600, dfcc=False, drop_unused=True, functions=["ReadRelocInfo", "DestroyRelocInfo"], object_bits=12,
+                defs=["-DVERIF_FILTERLIST"], bounded="at most one relocation and one export entry, string table of at most 4 bytes"))
 PB = "harness/C07/h_pbind.c"
 ERRNO = ["-include", "$VERIF/include/verif_errno_shim.h"]
 GROUPS.append(G("pb_ProcessFile_data", PB, "h_ProcessFile_data", enforce=[], replace=[], dfcc=False, drop_unused=True, link=["toolutils.c", "as_endian.c", "bpemu.c"],
@@ -22,6 +24,9 @@ for gran in (0, 1, 2, 4):
                     link=["toolutils.c", "as_endian.c", "bpemu.c", "addrspace.c"], unwind=4, timeout=600, cflags=ERRNO, functions=["ProcessSingle"], object_bits=12, flags=["--slice-formula"], split=4,
                     noreach=(gran == 0),
                     bounded="input = one data record (any CPU id, segment, address, length; granularity %d%s) + end record with a creator string of at most 2 characters" % (gran, " = invalid, must be rejected" if gran == 0 else "")))
+GROUPS.append(G("pl_ProcessSingle_reloc_truncated", "harness/C07/h_plist.c", "h_ProcessSingle_reloc_truncated", enforce=[], dfcc=False, drop_unused=True,
+                link=["toolutils.c", "as_endian.c", "bpemu.c", "addrspace.c"], unwind=4, timeout=600, cflags=ERRNO, functions=["ProcessSingle", "ReadRelocInfo"], object_bits=12, flags=["--slice-formula"], noreach=True,
+                bounded="a relocation-info record announcing one entry, cut at every position inside its counts / first entry"))
 GROUPS.append(G("pl_main_totals", "harness/C07/h_plist.c", "h_main_totals", enforce=[], dfcc=False, drop_unused=True,
                 link=["toolutils.c", "as_endian.c", "bpemu.c", "addrspace.c"], unwind=4, unwindset=["@plist_main:plist_main:%d:13" % i for i in range(6)], timeout=600, cflags=ERRNO,
                 functions=["main", "ProcessSingle"], object_bits=12, flags=["--slice-formula"], split=4,
